@@ -64,16 +64,17 @@ type ccase struct {
 	Var   int    `json:"variant"`
 }
 
-func directRules(era int) []common.UtxoValidationRuleFunc {
+// directRules returns the era's exported rule function per requirement (nil: the era has none).
+func directRules(era int) map[string]common.UtxoValidationRuleFunc {
 	switch era {
 	case EraAlonzo:
-		return []common.UtxoValidationRuleFunc{alonzo.UtxoValidateInsufficientCollateral, alonzo.UtxoValidateCollateralContainsNonAda, alonzo.UtxoValidateNoCollateralInputs}
+		return map[string]common.UtxoValidationRuleFunc{"R2": alonzo.UtxoValidateInsufficientCollateral, "R3": alonzo.UtxoValidateCollateralContainsNonAda, "R1": alonzo.UtxoValidateNoCollateralInputs}
 	case EraBabbage:
-		return []common.UtxoValidationRuleFunc{babbage.UtxoValidateInsufficientCollateral, babbage.UtxoValidateCollateralContainsNonAda, babbage.UtxoValidateNoCollateralInputs, babbage.UtxoValidateTooManyCollateralInputs}
+		return map[string]common.UtxoValidationRuleFunc{"R2": babbage.UtxoValidateInsufficientCollateral, "R3": babbage.UtxoValidateCollateralContainsNonAda, "R1": babbage.UtxoValidateNoCollateralInputs, "R4": babbage.UtxoValidateTooManyCollateralInputs}
 	case EraConway:
-		return []common.UtxoValidationRuleFunc{conway.UtxoValidateInsufficientCollateral, conway.UtxoValidateCollateralContainsNonAda, conway.UtxoValidateNoCollateralInputs, conway.UtxoValidateTooManyCollateralInputs}
+		return map[string]common.UtxoValidationRuleFunc{"R2": conway.UtxoValidateInsufficientCollateral, "R3": conway.UtxoValidateCollateralContainsNonAda, "R1": conway.UtxoValidateNoCollateralInputs, "R4": conway.UtxoValidateTooManyCollateralInputs}
 	default:
-		return []common.UtxoValidationRuleFunc{dijkstra.UtxoValidateInsufficientCollateral, dijkstra.UtxoValidateCollateralContainsNonAda, dijkstra.UtxoValidateNoCollateralInputs, dijkstra.UtxoValidateTooManyCollateralInputs}
+		return map[string]common.UtxoValidationRuleFunc{"R2": dijkstra.UtxoValidateInsufficientCollateral, "R3": dijkstra.UtxoValidateCollateralContainsNonAda, "R1": dijkstra.UtxoValidateNoCollateralInputs, "R4": dijkstra.UtxoValidateTooManyCollateralInputs}
 	}
 }
 
@@ -296,11 +297,11 @@ func main() {
 	c.Set("rules_rejecting_the_generous_collateral_baseline(ignored)", ign)
 
 	type result struct {
-		err       error
-		raw       []byte
-		attr      []RuleResult
-		accDirect bool
-		panicked  bool
+		err      error
+		raw      []byte
+		attr     []RuleResult
+		dirRej   map[string]bool // requirement -> the era's exported rule for it rejects
+		panicked bool
 	}
 	res := make([]result, len(cases))
 	vlib.Parallel(len(cases), func(i int) {
@@ -324,16 +325,16 @@ func main() {
 				r.panicked = true
 			}
 		}
-		r.accDirect = true
-		for _, f := range directRules(tc.Era) {
+		r.dirRej = map[string]bool{}
+		for req, f := range directRules(tc.Era) {
 			func() {
 				defer func() {
 					if recover() != nil {
-						r.accDirect = false
+						r.dirRej[req] = true
 					}
 				}()
 				if f(tx, 100, ls, pp) != nil {
-					r.accDirect = false
+					r.dirRej[req] = true
 				}
 			}()
 		}
@@ -342,7 +343,7 @@ func main() {
 		r := res[i]
 		v := variants[tc.Var]
 		replay := map[string]any{"case": tc, "config": cfgName(tc), "variant": v.name, "tx_cbor": fmt.Sprintf("%x", r.raw),
-			"rejecting_rules": names(r.attr), "direct_rules_accept": r.accDirect, "max_collateral_inputs": maxColl}
+			"rejecting_rules": names(r.attr), "direct_rules_rejecting": r.dirRej, "max_collateral_inputs": maxColl}
 		if r.err != nil {
 			c.Violation("decode|"+cfgName(tc), fmt.Sprintf("well-formed transaction rejected by the decoder: %v", r.err), replay)
 			continue
@@ -382,23 +383,23 @@ func main() {
 			c.Add("rule_panics_counted_as_rejection", 1)
 		}
 		c.Eval(fmt.Sprintf("%s|%s|%s|%s", cfgName(tc), balClass, nClass, v.name), fmt.Sprintf("%s/oracle-failed=%v", outcome, failed))
+		if o.r3 == nil && len(failed) == 0 {
+			c.Add("no_expectation(return-adds-tokens)_"+outcome, 1)
+		}
 		replay["oracle_failed_requirements"] = failed
 		replay["list_accepts"] = acc
-		if tc.Fee == 1 && tc.Pct == 150 && tc.N == 1 && tc.Bal == 1 && tc.Var <= 1 && tc.Valid && !tc.RMap || tc.Fee == 100 && tc.Pct == 150 && tc.N == 1 && tc.Var == 4 && tc.Bal == 150 && tc.Era == EraConway && tc.Valid {
+		if tc.Fee == 1 && tc.Pct == 150 && tc.N == 1 && tc.Bal == 1 && tc.Var == 0 && tc.Valid && !tc.RMap ||
+			tc.Fee == 100 && tc.Pct == 150 && tc.N == 1 && tc.Valid && tc.Era == EraBabbage && (tc.Var == 1 && tc.Bal == 149 || tc.Var == 4 && tc.Bal == 150 || tc.Var == 5 && tc.Bal == 150) ||
+			tc.Fee == 100 && tc.Pct == 100 && tc.N == maxColl+1 && tc.Var == 0 && tc.Bal == 101 && tc.Valid && !tc.RMap && tc.Era <= EraBabbage {
 			c.Sample(replay)
 		}
 		if !acc {
 			if len(failed) == 0 {
-				c.Add("oracle_ok_but_rejected(converse,not_a_violation)", 1)
-				if o.r3 != nil { // variant 8 is expected to be rejected by the real ledger
-					c.Distinct("converse:" + cfgName(tc) + "|" + v.name)
+				if o.r3 != nil {
+					c.Add("oracle_ok_but_rejected(converse,not_a_violation)", 1)
 				}
 			}
 			continue
-		}
-		suffix := ""
-		if !r.accDirect {
-			suffix = "|rule-rejects-but-list-accepts"
 		}
 		en := EraNames[tc.Era]
 		for _, f := range failed {
@@ -412,6 +413,10 @@ func main() {
 				k = "non-ada|" + v.name
 			case "R4":
 				k = "too-many-inputs"
+			}
+			suffix := ""
+			if r.dirRej[f] {
+				suffix = "|rule-rejects-but-list-accepts"
 			}
 			c.Violation(fmt.Sprintf("collateral|era=%s|%s%s", en, k, suffix),
 				fmt.Sprintf("%s: fee %d pct %d balance %d (inputs %s, n=%d, %s) accepted although requirement %s fails (balance*100=%d < fee*pct=%s; max inputs %d)",
